@@ -231,3 +231,22 @@ Lemma coupling_happens_proof :
   /\ map (flipped wit_fl m) (wit_chain (-1)) = [false; true]
   /\ length m = 3%nat.
 Proof. vm_compute. repeat split; reflexivity. Qed.
+
+(* the same two-body decay twice in one chain (chi_c0 -> omega omega, omega -> gamma pi0 twice), both
+   occurrences helicity-flipped with IDENTICAL suffixes, eta = -1 each: the product runs over the
+   nodes, not over the distinct suffixes, so eta counts twice *)
+Definition twin_chain (hw hg : Z) : transition :=
+  [ mkNode (wit_state 0 0) (wit_state 1 hw) (wit_state 1 hw) 0 0 (Some 1);
+    mkNode (wit_state 1 hw) (wit_state 2 hg) (wit_state 3 0) 2 2 (Some (-1));
+    mkNode (wit_state 1 hw) (wit_state 2 hg) (wit_state 3 0) 2 2 (Some (-1)) ].
+Definition twin_ts := [twin_chain 2 2; twin_chain (-2) (-2)].
+Lemma twin_nodes_proof :
+  let m := register wit_fl twin_ts in
+  map (flipped wit_fl m) (twin_chain (-2) (-2)) = [true; true; true]
+  /\ map (raw wit_fl) (skipn 1 (twin_chain (-2) (-2)))
+     = [raw wit_fl (nth 1 (twin_chain (-2) (-2)) (nth 0 (twin_chain 2 2) (mkNode (wit_state 0 0) (wit_state 0 0) (wit_state 0 0) 0 0 None)));
+        raw wit_fl (nth 1 (twin_chain (-2) (-2)) (nth 0 (twin_chain 2 2) (mkNode (wit_state 0 0) (wit_state 0 0) (wit_state 0 0) 0 0 None)))]
+  /\ prefactor wit_fl m (twin_chain (-2) (-2)) = 1
+  /\ seq_suffix wit_fl m (twin_chain (-2) (-2)) = seq_suffix wit_fl m (twin_chain 2 2)
+  /\ diff_eta wit_fl (twin_chain 2 2) (twin_chain (-2) (-2)) = 1.
+Proof. vm_compute. repeat split; reflexivity. Qed.
